@@ -64,6 +64,12 @@ def _worker(job):
 
         c = C[name]
         hook = c.get("model_hook")
+        if hook is None and c["domain"] == "S":
+            from checker.witness import make_witness
+
+            def hook(h, ctx, model, clause, meta, _n=name):
+                return make_witness(_n, ctx, model, clause, "S")
+
         r = run_contract(name, c["fn"], src_root=src, model_hook=hook, shard=shard, **limits)
         return r.to_json()
     except Exception as e:  # pragma: no cover
@@ -94,9 +100,11 @@ def load_known_findings():
 def finding_matches(f, prop, contract, rec):
     if f.get("status") != "open" or f.get("property") != prop:
         return False
+    if not f.get("clause") or f.get("monitor_key"):
+        return False  # findings about monitor inputs never excuse a refuted verification condition
     if f.get("contract") and f["contract"] != contract:
         return False
-    if f.get("clause") and f["clause"] != rec.get("clause"):
+    if f["clause"] != rec.get("clause"):
         return False
     sigs = f.get("path_signatures")
     if sigs is not None and rec.get("path") not in sigs:
